@@ -51,6 +51,9 @@ pub fn run(ctx: &Ctx) {
         let shape = lit_shape(lit);
         let replay = json!({"sweep": "numeric-literals", "index": i, "entry": "serde_json::from_str::<Transaction>", "transaction_json": text, "field": field, "literal": lit.to_text(), "reference": format!("{:?}", class)});
         ctx.sample("numeric-literals", || replay.clone());
+        { let mut t = tx.clone(); let v = match &class { Class::Accept(v) | Class::Unc(v) => Some(v.clone()), Class::Reject => None };
+          if let Some(v) = &v { match (field, v) { ("chainId", c) => t.chain_id = c.clone(), ("nonce", Some(x)) => t.nonce = x.clone(), ("gasPrice", Some(x)) => t.gas_price = x.clone(), ("gas", Some(x)) => t.gas = x.clone(), ("value", Some(x)) => t.value = x.clone(), ("maxPriorityFeePerGas", Some(x)) => t.max_priority = x.clone(), ("maxFeePerGas", Some(x)) => t.max_fee = x.clone(), _ => {} } }
+          emit_tx(ctx, "numeric-literals", i, 1, &shape, &text, if v.is_some() { Some(&t) } else { None }, class.name(), &refmodel::secp::Curve::new()); }
         match observe_tx(&text, &sig) {
             Err(p) => { ctx.eval(format!("{slot}:{shape}:panic")); ctx.panic_violation(format!("{P}:tx:{shape}:panic@{}", explore::panic_site(&p)), format!("{slot}: panics: {p}"), replay) }
             Ok(Err(e)) => { ctx.eval(format!("{slot}:{shape}:rejected")); if let Class::Accept(_) = class { ctx.violation(format!("{P}:tx:{shape}:rejected"), format!("a spelling the tool must read is rejected: {e}"), replay) } }
